@@ -49,8 +49,19 @@ def impl_net_attrs(ver, v, p):
             int(n.hostmask), n.size, [c._value, c._prefixlen]]
 
 
+class _Idx(object):
+    """an object that is integral only through __index__ (numpy integers, ctypes-free wrappers ..): not an int for the setters"""
+    def __init__(self, n):
+        self.n = n
+
+    def __index__(self):
+        return self.n
+
+
 def _arg(a):
     import netaddr
+    if isinstance(a, list) and a and a[0] == "idx":
+        return _Idx(a[1])
     if isinstance(a, list):
         return netaddr.IPAddress(a[1], a[0])
     if a is None:
@@ -138,6 +149,17 @@ def orc_net_setops(args, res):
                 return "setter %s raised %s" % (name, e.name)
             if post != cur:
                 return "failed setter %s changed the object" % name
+            # a valid argument must be accepted (plain ints / an address of the own family; other argument kinds may be refused)
+            ai = a[1] if (isinstance(a, list) and len(a) == 2 and a[0] == ver) else a
+            if isinstance(ai, int) and not isinstance(ai, bool):
+                if name == "value" and isinstance(a, int) and 0 <= ai <= 2 ** w - 1:
+                    return "value setter refused the in-range integer %#x with %s" % (ai, e.name)
+                if name == "prefixlen" and isinstance(a, int) and 0 <= ai <= w:
+                    return "prefixlen setter refused the valid prefix %d with %s" % (ai, e.name)
+                # (a bare int is read as IPAddress(int): IPv4 below 2^32, so an IPv6 network must refuse those)
+                same_family = isinstance(a, list) or (ver == 4 and ai < 2 ** 32) or (ver == 6 and ai >= 2 ** 32)
+                if name == "netmask" and same_family and any(ai == 2 ** w - 2 ** (w - q) for q in range(w + 1)):
+                    return "netmask setter refused the contiguous netmask %#x with %s" % (ai, e.name)
         else:
             if not (post[0] == ver and 0 <= post[1] <= 2 ** w - 1 and 0 <= post[2] <= w):
                 return "setter %s left an ill-formed object %r" % (name, post)
@@ -209,10 +231,11 @@ def rand_setop(rng, ver):
     w = gens.W[ver]
     k = rng.random()
     if k < 0.3:
-        a = rng.choice([rng.getrandbits(w), 0, 2 ** w - 1, 2 ** w, -1, gens.rand_value(rng, ver), None, "x"])
+        a = rng.choice([rng.getrandbits(w), 0, 2 ** w - 1, 2 ** w, -1, gens.rand_value(rng, ver), None, "x", ["idx", rng.getrandbits(w)]])
         return ["value", a]
     if k < 0.6:
-        a = rng.choice([rng.randrange(w + 1), 0, w, w + 1, -1, rng.randrange(w + 1), None, "24", 33 if ver == 4 else 129])
+        a = rng.choice([rng.randrange(w + 1), 0, w, w + 1, -1, rng.randrange(w + 1), None, "24", 33 if ver == 4 else 129,
+                        ["idx", rng.randrange(w + 1)]])
         return ["prefixlen", a]
     m = rng.choice(mask_candidates(rng, ver))
     r = rng.random()
